@@ -43,8 +43,18 @@ static void slots_init (void)
 {
   int st, i;
   for (st = 0; st < 2; st++) {
-    for (i = 0; i < MAXD; i++) { arena_slot_init (&slotA[st][i], st, 0); arena_slot_init (&slotB[st][i], st, 0); arena_slot_init (&slotC[st][i], st, 0); }
-    for (i = 0; i < MAXS; i++) arena_slot_init (&slotS[st][i], st, 1);
+    for (i = 0; i < MAXD; i++) {
+      /* the first destination of native runs has a 4 GiB boundary one page into its data (rows of larger mid-placed 2-D arrays lie on both sides) */
+      arena_straddle_next = (st == 0 && i == 0) ? ARENA_PAGE : -1;
+      arena_slot_init (&slotA[st][i], st, 0);
+      arena_straddle_next = -1;
+      arena_slot_init (&slotB[st][i], st, 0); arena_slot_init (&slotC[st][i], st, 0); }
+    for (i = 0; i < MAXS; i++) {
+      /* the first source: one page before the end of its data (trail-placed arrays) */
+      arena_straddle_next = (st == 0 && i == 0) ? ARENA_DATA_BYTES - ARENA_PAGE : -1;
+      arena_slot_init (&slotS[st][i], st, 1);
+      arena_straddle_next = -1;
+    }
   }
   arena_slot_init (&slotEx, 0, 0);
 }
@@ -222,6 +232,10 @@ static void fill_run (const ProgSpec *ps, const RunCfg *cfg, RunSetup *rs, int w
     }
     rs->ioA.stride[a->var] = rs->ioB.stride[a->var] = rs->ioC.stride[a->var] = a->stride;
     rs->ioA.arr[a->var] = arena_data_view (slot_for (a, 0, cfg->striped), 0) + a->off0;
+    if (!cfg->striped && cfg->m > 1) {
+      uintptr_t first = (uintptr_t) rs->ioA.arr[a->var], last = first + (uintptr_t) (cfg->m - 1) * (uintptr_t) a->stride;
+      if ((first >> 32) != (last >> 32)) vh_count ("runs.rows_on_both_sides_of_4GiB", 1);
+    }
     rs->ioB.arr[a->var] = arena_data_view (slot_for (a, 1, cfg->striped), 0) + a->off0;
     rs->ioC.arr[a->var] = a->is_dest ? arena_data_rw (slot_for (a, 2, cfg->striped), 0) + a->off0 : arena_data_rw (slot_for (a, 0, cfg->striped), 0) + a->off0;
   }
@@ -265,11 +279,16 @@ struct Failure_ {
   int var, row; long elem;
   int c1, c2, c3;     /* loop counters observed */
 };
-/* a write behind the executor the function was handed is a write outside "destination arrays and the executor": the calling
- * convention property's clause when that property is the one being decided, the entitlement property's otherwise */
+/* a store outside "destination arrays and the executor structure it was handed" is the calling convention property's last clause
+ * when that property is the one being decided, the entitlement property's otherwise */
 static const char *prop_of (const Failure *f)
 {
-  if (f->kind == F_FAULT_NATIVE && !strcmp (vh_args.mode, "c10") && strstr (f->sub, "write-") && (strstr (f->sub, "-executor") || strstr (f->sub, "write-wild"))) return "C10";
+  if (!strcmp (vh_args.mode, "c10")) {
+    /* any store that lands outside the entitled destination elements: behind the executor, wild, past either end of a destination
+     * (guard page or canary), or into a source */
+    if (f->kind == F_FAULT_NATIVE && !strncmp (f->sub, "write-", 6)) return "C10";
+    if (f->kind == F_CANARY_NATIVE) return "C10";
+  }
   return fail_prop[f->kind];
 }
 
@@ -977,6 +996,7 @@ int main (int argc, char **argv)
     n_tgts = k;
   }
   slots_init ();
+  vh_count ("arena.slots_across_4GiB", (uint64_t) arena_straddled);
   exA = (OrcExecutor *) (arena_data_rw (&slotEx, 0) + ARENA_DATA_BYTES - ((sizeof (OrcExecutor) + 7) & ~7UL));   /* flush against the guard page, aligned as a caller's OrcExecutor object is (8) */
   arena_install_handlers ();
   finite_only = 1;
@@ -997,6 +1017,16 @@ int main (int argc, char **argv)
     report_mask = (1u << F_FLOAT) | (1u << F_NAN) | (1u << F_MASK) | (1u << F_DENORMAL) | (1u << F_FAULT_NATIVE) | (1u << F_ABI);
     mode_prop = "C18"; mode_profile = GP_FLOAT | GP_HINTS | GP_2D; mode_placements = (1 << PL_MID) | (1 << PL_TRAIL); want_ref = 1; float_mode = 1; finite_only = 0;
     N_single = -1; N_pairs = -1; N_random = vh_args.thorough ? 250000 : 25000; N_special = 0;
+    {
+      /* the float rules have fall-backs for CPUs without the newer extensions: the sse target is also exercised with SSE2 only and with
+       * everything up to SSSE3 (same target name: the flags are part of the witness) */
+      OrcTarget *sse = orc_target_get_by_name ("sse");
+      if (sse && n_tgts + 2 <= 16) {
+        unsigned sd = orc_target_get_default_flags (sse), sall = ORC_TARGET_SSE_SSE2 | ORC_TARGET_SSE_SSE3 | ORC_TARGET_SSE_SSSE3 | ORC_TARGET_SSE_SSE4_1 | ORC_TARGET_SSE_SSE4_2;
+        tgts[n_tgts].name = "sse"; tgts[n_tgts].t = sse; tgts[n_tgts].flags = (sd & ~sall) | ORC_TARGET_SSE_SSE2; tgts[n_tgts].vecbytes = 16; n_tgts++;
+        tgts[n_tgts].name = "sse"; tgts[n_tgts].t = sse; tgts[n_tgts].flags = (sd & ~sall) | ORC_TARGET_SSE_SSE2 | ORC_TARGET_SSE_SSE3 | ORC_TARGET_SSE_SSSE3; tgts[n_tgts].vecbytes = 16; n_tgts++;
+      }
+    }
   } else if (!strcmp (mode, "c02f")) {
     /* float/double opcodes: emulation vs the reference (the native comparison of the same runs is C18's and is not reported here) */
     report_mask = (1u << F_REF_EMU) | (1u << F_FAULT_EMU) | (1u << F_CANARY_EMU);
